@@ -62,10 +62,18 @@ Theorem crashed_objects_delete_nothing : forall w f done dels x,
 Proof. exact C09_Gc.crashed_objects_delete_nothing. Qed.
 Print Assumptions crashed_objects_delete_nothing.
 
-(* dropped_wals_removed: once the retention update has been saved, the WAL file of every checkpoint it dropped is gone
-   (a checkpoint is dropped when its id is neither listed nor newer than every listed id) *)
-Theorem dropped_wals_removed : forall w d ids x c,
-  get_db w d = Some x -> In c (x_ckpts x) -> retain_keeps ids c = false ->
-  fs_has (g_fs (step w (ORetain d ids))) (c_wal c) = false.
-Proof. exact retain_moves_to_pending. Qed.
+(* dropped_wals_removed: once the retention update HAS BEEN SAVED (its Save returned without error), the WAL file of every
+   checkpoint it dropped is gone (a checkpoint is dropped when its id is neither listed nor newer than every listed id) ... *)
+Theorem dropped_wals_removed : forall w d ids f x c,
+  get_db w d = Some x -> retain_ok w d ids f = true -> In c (x_ckpts x) -> retain_keeps ids c = false ->
+  fs_has (g_fs (step_retain w d ids f)) (c_wal c) = false.
+Proof. exact retain_saved_removes_dropped_wals. Qed.
 Print Assumptions dropped_wals_removed.
+
+(* ... and only then: a retention update whose Save fails (storage fault while writing the checkpoints file, or while deleting)
+   removes no file at all - the durable list still references the dropped checkpoints and their WALs are still there *)
+Theorem failed_retention_save_removes_nothing : forall w d ids f x n,
+  get_db w d = Some x -> retain_ok w d ids f = false -> fname_eqb n (x_dir x, 2, 0) = false ->
+  fs_has (g_fs (step_retain w d ids f)) n = fs_has (g_fs w) n.
+Proof. exact retain_failed_keeps_wals. Qed.
+Print Assumptions failed_retention_save_removes_nothing.
